@@ -2,7 +2,11 @@
      ERR                                   rejected by the model (lexer or reference parser)
      OK <deg> <re0> <im0> <re1> <im1> ...  exact coefficients of [denote], ascending degree
      FPDIFF ...                            the formal-polynomial model (C++ operations as coded)
-                                           disagrees with the reference denotation (never expected)
+                                           disagrees with the reference denotation (never expected:
+                                           excluded by theorem C11_run_string_consistent)
+     LRDIFF ref=... lr=...                 the pipeline as generated (flex token names, bison's table run
+                                           by the yacc skeleton model, grammar actions: run_yacc_string)
+                                           disagrees with lexer + reference parser + denotation
    Coefficients are printed like GMP prints canonical mpq: "n" or "n/d". *)
 open Inline
 
@@ -41,11 +45,15 @@ let () =
   try
     while true do
       let line = input_line stdin in
+      let lr = match run_yacc_string line with None -> "ERR" | Some y -> "OK " ^ show y in
       (match run_string line with
-       | None -> print_string "ERR\n"
+       | None ->
+         if lr = "ERR" then print_string "ERR\n"
+         else (print_string "LRDIFF ref=ERR lr="; print_string lr; print_char '\n')
        | Some (a, f) ->
          let sa = show a and sf = show f in
-         if sa = sf then (print_string "OK "; print_string sa; print_char '\n')
-         else (print_string "FPDIFF ref="; print_string sa; print_string " formal="; print_string sf; print_char '\n'))
+         if sa <> sf then (print_string "FPDIFF ref="; print_string sa; print_string " formal="; print_string sf; print_char '\n')
+         else if lr <> "OK " ^ sa then (print_string "LRDIFF ref=OK "; print_string sa; print_string " lr="; print_string lr; print_char '\n')
+         else (print_string "OK "; print_string sa; print_char '\n'))
     done
   with End_of_file -> ()
